@@ -785,6 +785,99 @@ def hostile_items(ctx):
         ctx.count("hostile_items")
         if problems:
             ctx.violation({"scenario": "hostile", "label": label}, "; ".join(problems)[:1000], "hostile")
+    hostile_records(ctx)
+
+
+def hostile_records(ctx):
+    """Stack items whose own protocol methods are hostile although no hook fails: every unknown attribute lookup raises
+    KeyError (a dict-backed record), comparison and truth testing raise. Their unwrap hook hands over raw frames in each
+    documented form, so the record itself is what the frames are attributed to. extract must return, keep the frames
+    that the hook named (and the frame of a coroutine awaiting the record), and stay formattable."""
+    import stackscope
+    if "Record" not in _HOSTILE:
+        class Record(object):
+            def __init__(s, form, gen):
+                s.__dict__["form"] = form
+                s.__dict__["gen"] = gen
+
+            def __getattr__(s, name):
+                raise KeyError(name)
+
+            def __eq__(s, other):
+                raise ArithmeticError("records do not compare")
+
+            __hash__ = object.__hash__
+
+            def __bool__(s):
+                raise ArithmeticError("records have no truth value")
+
+            def __await__(s):
+                return s
+
+            def __iter__(s):
+                return s
+
+            def __next__(s):
+                return "parked"
+
+        @stackscope.unwrap_stackitem.register(Record)
+        def _(rec):
+            d = rec.__dict__
+            fr = d["gen"].gi_frame
+            if d["form"] == "frame":
+                return fr
+            if d["form"] == "tuple":
+                return (fr, None)
+            if d["form"] == "list":
+                return [fr]
+            return stackscope.StackSlice(outer=fr, inner=fr)
+        _HOSTILE["Record"] = Record
+    Record = _HOSTILE["Record"]
+
+    def produce():
+        yield 1
+
+    async def worker(rec):
+        await rec
+    for form in ("frame", "tuple", "list", "slice"):
+        for how in ("direct", "awaited"):
+            label = "record-%s-%s" % (form, how)
+            g = produce()
+            next(g)
+            rec = Record(form, g)
+            co = None
+            expect = [g.gi_frame]
+            if how == "direct":
+                target = rec
+            else:
+                co = worker(rec)
+                co.send(None)
+                target = co
+                expect = [co.cr_frame, g.gi_frame]
+            problems = []
+            try:
+                with warnings.catch_warnings():
+                    warnings.simplefilter("ignore")
+                    st = stackscope.extract(target)
+            except BaseException as ex:  # noqa
+                st = None
+                problems.append("extract raised %r" % (ex,))
+            if st is not None:
+                if [f.pyframe for f in st.frames] != expect:
+                    problems.append("frames %r, expected %r (error=%r)" % ([f.funcname for f in st.frames], [f.f_code.co_name for f in expect], st.error))
+                try:
+                    "".join(st.format())
+                    "".join(st.format_flat())
+                except Exception as ex:
+                    problems.append("formatting the result raised %r" % (ex,))
+            if co is not None:
+                co.close()
+            g.close()
+            ctx.count("evaluations")
+            ctx.count("distinct_nontrivial")
+            ctx.count("hostile_items")
+            if problems:
+                ctx.violation({"scenario": "hostile", "label": label}, "; ".join(problems)[:1000], "hostile")
 
 
 def run(ctx):
